@@ -224,6 +224,18 @@ def run_check(
     return rc
 
 
+def _group(instances: List[Dict[str, Any]]) -> List[Dict[str, Any]]:
+    """One row per (rule, function, obligation text, verdict) with the number of instances and one example."""
+    out: Dict[tuple, Dict[str, Any]] = {}
+    for i in instances:
+        k = (i["rule"], i["where"], i["obligation"] if i["verdict"] == "holds" or len(i["obligation"]) < 200 else i["obligation"][:200], i["verdict"])
+        if k not in out:
+            ex = {x: y for x, y in i.items() if x not in ("rule", "where", "obligation", "verdict")}
+            out[k] = {"rule": k[0], "where": k[1], "obligation": k[2], "verdict": k[3], "instances": 0, "example": ex}
+        out[k]["instances"] += 1
+    return list(out.values())
+
+
 def _write_evidence(
     ctx: Ctx,
     level: str,
@@ -260,7 +272,7 @@ def _write_evidence(
         "known_findings_matched": n_known,
         "notes": ctx.notes,
         "exhaustive": True,
-        "all_obligations": ctx.instances,
+        "obligations_grouped": _group(ctx.instances),
     }
     if error:
         cov["analysis_error"] = error
